@@ -453,7 +453,16 @@ def _keep_graph_outputs_distinct(ir_model: ir.Model) -> None:
     graph outputs that are one value share one name and cannot carry distinct
     user-supplied names, so a repeated value gets an Identity of its own.
     """
-    graph = ir_model.graph
+    _keep_outputs_distinct_in(ir_model.graph)
+    # The body of an ONNX function is a graph of its own: a function whose result is (or
+    # folds back onto) one of its inputs would otherwise have an output that no node produces.
+    for fn in iter_ir_functions(ir_model.functions):
+        fn_graph = getattr(fn, "graph", None)
+        if fn_graph is not None:
+            _keep_outputs_distinct_in(fn_graph)
+
+
+def _keep_outputs_distinct_in(graph: ir.Graph) -> None:
     # a leaf that IS a model input (returned unchanged, or folded back onto it) is repeated too:
     # the input and the output need names of their own
     seen: set[int] = {id(v) for v in graph.inputs}
